@@ -12,6 +12,7 @@ def genCfg : FrameCfg :=
     leading := UInt8.ofNat (Gen.ConnFacts.leadingVersion ||| Gen.ConnFacts.leadingType),
     versionMask := UInt8.ofNat Gen.ConnFacts.versionMusk, version00 := UInt8.ofNat Gen.ConnFacts.version00,
     typeMask := UInt8.ofNat Gen.ConnFacts.typeMusk, typeCompress := UInt8.ofNat Gen.ConnFacts.typeCompress,
-    typeEncrypt := UInt8.ofNat Gen.ConnFacts.typeEncrypt }
+    typeEncrypt := UInt8.ofNat Gen.ConnFacts.typeEncrypt,
+    unsealedDataSize := Gen.ConnFacts.dataMaxSize + Gen.ConnFacts.dataLenSize }
 
 end Model.Conn
